@@ -167,10 +167,30 @@ def inventory(repo, chk):
                   f"{cm.path}:{fn.lineno} in compile_code")
         for s in setters:
             call = [c for c in ast.walk(s.ast) if isinstance(c, ast.Call) and norm(c.func).endswith("set_output_mode")][0]
-            names = {x.id for a in call.args for x in ast.walk(a) if isinstance(x, ast.Name)}
-            attrs = {norm(x) for a in call.args for x in ast.walk(a) if isinstance(x, ast.Attribute)}
             params = [a.arg for a in fn.args.args]
-            okv = names <= {"OutputMode", params[1]} and any(t == f"{params[1]}.compact" for t in attrs)
+            rd_ = ReachingDefs(cfg)
+            # inputs of the mode value, through local definitions and the guards under which they were made
+            names, attrs, todo, seen_ = set(), set(), [(a, s.id) for a in call.args], set()
+            while todo:
+                e_, at_ = todo.pop()
+                for x in ast.walk(e_):
+                    if isinstance(x, ast.Attribute):
+                        attrs.add(norm(x))
+                    if isinstance(x, ast.Name) and isinstance(x.ctx, ast.Load):
+                        ds_ = [d for d in rd_.at(at_, x.id) if d.kind in ("assign", "aug")]
+                        if x.id in ("OutputMode", params[1]) or not ds_:
+                            names.add(x.id)
+                            continue
+                        for d in ds_:
+                            if (x.id, d.node) in seen_ or d.value is None:
+                                continue
+                            seen_.add((x.id, d.node))
+                            todo.append((d.value, d.node))
+                            for t_, p_ in cfg.guards(d.node):
+                                if isinstance(t_, ast.expr):
+                                    todo.append((t_, d.node))
+            attrs = {a for a in attrs if a.startswith(params[1] + ".")} | {a for a in attrs if not a.startswith(("OutputMode.", params[1] + "."))}
+            okv = names <= {"OutputMode", params[1]} and f"{params[1]}.compact" in attrs and all(a == f"{params[1]}.compact" or a.startswith("OutputMode.") for a in attrs)
             chk.judge("R11.a", "utils:_output_mode:value depends on options.compact only", okv, f"mode expression {norm(call)} reads {sorted(names)}", None,
                       f"{cm.path}:{call.lineno}")
         # the setter itself
